@@ -46,6 +46,18 @@ MULTIWORD = ["*em one two*", "**strong a b**", "~x y z~", "~~gone for good~~", "
              "_under score_", "***both of them***", "[ref text][ref]", "![alt text](i.png)"]
 
 
+def tag_block_layouts(rnd):
+    """a paragraph with a tag pair that opens a line (after a tag-adjacent newline, which stays) and whose body spans several
+    words: the soft breaks INSIDE that stretch are ordinary ones"""
+    o, c = rnd.choice((("{% note %}", "{% /note %}"), ("<!-- a -->", "<!-- /a -->"), ("{{ x }}", "{{ y }}")))
+    inner = [rnd.choice(PLAINW[:12]) for _ in range(rnd.choice((4, 7, 10)))]
+
+    def lay():
+        body = "".join(w if k == 0 else (("\n" if rnd.random() < 0.3 else " ") + w) for k, w in enumerate(inner))
+        return "intro words %s\n%s %s %s\n" % (o, o, body, c)
+    return lay(), lay()
+
+
 def inline_paragraph_layouts(rnd):
     """one paragraph whose inline constructs span several words, in two layouts that differ only in which inter-word
     spaces are soft line breaks (also inside the constructs)"""
@@ -95,6 +107,14 @@ def bounded(tier, seed):
                 if oa != ob:
                     viol.append({"clause": "relayout_invariant", "input": {"text": da, "other_layout": db, "options": {"width": w, "semantic": sm},
                                                                            **P.doc_features(da)}, "got": ob[:6000], "want": oa[:6000]})
+    for i in range(30 if tier == "quick" else 300):
+        a, b = tag_block_layouts(rnd)
+        for w, sm in ((88, False), (30, True), (24, False)):
+            oa, ob = P.fmt(a, width=w, semantic=sm), P.fmt(b, width=w, semantic=sm)
+            evals += 1
+            if oa != ob:
+                viol.append({"clause": "relayout_invariant", "input": {"text": a, "other_layout": b, "options": {"width": w, "semantic": sm},
+                                                                       **P.doc_features(a)}, "got": ob[:6000], "want": oa[:6000]})
     # inline constructs spanning several words: a soft break anywhere between two words is not significant
     for i in range(60 if tier == "quick" else 600):
         a, b = inline_paragraph_layouts(rnd)
